@@ -38,16 +38,19 @@ def memContents (m : MState) : FinMap := m.objs.map (fun kv => (kv.1, kv.2.tok))
 def memList (m : MState) (ns : String) : FinMap :=
   (m.objs.filter (fun kv => ns == "*" || kv.2.ns == ns)).map (fun kv => (kv.1, kv.2.tok))
 
+/-- `krt.GetKey(config.Config)`: `namespace/name`, or `name` for a cluster-scoped object (`-` = no namespace) -/
+def memKey (ns name : String) : Key := if ns == "-" then name else ns ++ "/" ++ name
+
 /-- `Store.Create`. -/
 def memCreate (m : MState) (ns name val rv : String) : MState × String :=
-  let k := ns ++ "/" ++ name
+  let k := memKey ns name
   match AMap.lookup m.objs k with
   | some _ => (m, "exists")
   | none => ({ m with objs := AMap.set m.objs k ⟨ns, val, rv⟩ }, "ok:" ++ rv)
 
 /-- `Store.Update` with `hasConflict`. -/
 def memUpdate (m : MState) (ns name val rv newrv : String) : MState × String :=
-  let k := ns ++ "/" ++ name
+  let k := memKey ns name
   match AMap.lookup m.objs k with
   | none => (m, "notfound")
   | some old =>
@@ -56,7 +59,7 @@ def memUpdate (m : MState) (ns name val rv newrv : String) : MState × String :=
 
 /-- `Store.Delete`. -/
 def memDelete (m : MState) (ns name : String) : MState × String :=
-  let k := ns ++ "/" ++ name
+  let k := memKey ns name
   match AMap.lookup m.objs k with
   | none => (m, "notfound")
   | some _ => ({ m with objs := AMap.erase m.objs k }, "ok")
@@ -66,9 +69,10 @@ def stepM (m : MState) (toks : List String) : MState × String :=
   | "case" :: _ => ({}, "ok")
   | ["m.create", ns, name, val, rv] => memCreate m ns name val rv
   | ["m.update", ns, name, val, rv, newrv] => memUpdate m ns name val rv newrv
+  | ["m.status", ns, name, val, rv, newrv] => memUpdate m ns name val rv newrv   -- `UpdateStatus`
   | ["m.delete", ns, name] => memDelete m ns name
   | ["m.get", ns, name] =>
-    (m, "m.get " ++ match AMap.lookup m.objs (ns ++ "/" ++ name) with
+    (m, "m.get " ++ match AMap.lookup m.objs (memKey ns name) with
       | none => "none"
       | some o => o.tok)
   | ["m.list", ns] => (m, "m.list " ++ showMap (memList m ns))
@@ -86,6 +90,7 @@ structure TopState where
   a : AllState := {}
   m : MState := {}
   x : XState := {}
+  jx : JXState := {}
 
 def stepTop (t : TopState) (toks : List String) : TopState × String :=
   match toks with
@@ -93,6 +98,9 @@ def stepTop (t : TopState) (toks : List String) : TopState × String :=
     if stream.startsWith "mem" then
       let r := stepM {} toks
       ({ mode := 1, m := r.1 }, r.2)
+    else if stream.startsWith "joinx" then
+      let r := stepJX {} toks
+      ({ mode := 3, jx := r.1 }, r.2)
     else if stream.startsWith "exact" then
       let r := stepX {} toks
       ({ mode := 2, x := r.1 }, r.2)
@@ -106,6 +114,9 @@ def stepTop (t : TopState) (toks : List String) : TopState × String :=
     else if t.mode == 2 then
       let r := stepX t.x toks
       ({ t with x := r.1 }, r.2)
+    else if t.mode == 3 then
+      let r := stepJX t.jx toks
+      ({ t with jx := r.1 }, r.2)
     else
       let r := stepAll t.a toks
       ({ t with a := r.1 }, r.2)
